@@ -23,4 +23,12 @@ MUTANTS = [
         '            minimal &= ~add\n', '            pass\n')]},
     {'id': 'lattice-heap-colex', 'expect': ['C06'], 'edits': [(L,
         'push((n_extent.shortlex(), neighbor))', 'push(((n_extent.count(), n_extent.int), neighbor))')]},
+    {'id': 'ctor-ragged-superset', 'expect': ['C19'], 'edits': [(CX,
+        "{len(b) for b in bools} != {len(properties)}", "not {len(b) for b in bools} >= {len(properties)}")]},
+    {'id': 'fromdict-negative-index', 'expect': ['C19'], 'edits': [(CX,
+        "if not result.issubset(indexes):", "if max(result, default=0) >= len(indexes):")]},
+    {'id': 'ctor-overlap-first-only', 'expect': ['C19'], 'edits': [(CX,
+        "if not set(objects).isdisjoint(properties):", "if objects[0] in properties or properties[0] in objects:")]},
+    {'id': 'relations-swap-implication', 'expect': ['C16'], 'edits': [(JU,
+        "            left, right = right, left\n", "            pass\n")]},
 ]
